@@ -210,7 +210,8 @@ async def check_union(ctx, case):
                 ctx.violation("extract-union", f"extract({a!r}) was changed by being used as a summand: now {oa[1]!r}, extracted afresh {again[1]!r}")
                 return
     for attr in ("requirement_constraint_keys", "hint_keys", "format_constraint_keys"):
-        if getattr(summed[1], attr) != getattr(oc[1], attr):
+        # (two spellings of one number, '1' and '01', may come in either order: compared as sorted by (number, spelling))
+        if sorted(getattr(summed[1], attr), key=lambda k: (int(k), k)) != sorted(getattr(oc[1], attr), key=lambda k: (int(k), k)):
             ctx.violation("extract-union", f"{attr}: extract(A)+extract(B) = {getattr(summed[1], attr)} but extract('(A) op (B)') = {getattr(oc[1], attr)} for A={a!r}, B={b!r}")
     ctx.nontrivial(["union", a, b, resolve, replace])
 
